@@ -8,7 +8,7 @@ import Mathlib.Tactic.Ring
 /-
   Lemmas for C05 (`merge`): a canonical description of `foldRecs l []`.
 
-  * `foldRecs l [] = .ok gs` implies `Inv l gs`: the keys of `gs` are the distinct keys of `l`, and
+  * `foldRecs l [] = .ok gs` implies `MergeInv l gs`: the keys of `gs` are the distinct keys of `l`, and
     every `g ∈ gs` satisfies `IsGroupOf l g` (scalar sums / array sums over the key class of `l`).
   * `foldRecs l [] = .error e` implies `e = .value` and `Mismatch l`.
   * `IsGroupOf l g` is permutation invariant in `l` and determines `g` from its key.
@@ -444,7 +444,7 @@ theorem IsGroupOf.snoc_eq {l g r lc cv} (h : IsGroupOf l g) (hk : g.key = keyOf 
 
 /-! ### the fold invariant -/
 
-structure Inv (l : List RawRec) (gs : List Group) : Prop where
+structure MergeInv (l : List RawRec) (gs : List Group) : Prop where
   nodup : (gs.map (·.key)).Nodup
   keys : ∀ k, k ∈ gs.map (·.key) ↔ ∃ r ∈ l, keyOf r = k
   grp : ∀ g ∈ gs, IsGroupOf l g
@@ -463,16 +463,16 @@ theorem Mismatch.snoc {l : List RawRec} (r : RawRec) (h : Mismatch l) : Mismatch
   obtain ⟨r₁, h₁, r₂, h₂, hk, hor⟩ := h
   exact ⟨r₁, by simp [h₁], r₂, by simp [h₂], hk, hor⟩
 
-theorem inv_nil : Inv [] [] :=
+theorem inv_nil : MergeInv [] [] :=
   { nodup := by simp, keys := by simp, grp := by simp }
 
-theorem Inv.exists_group {l gs} (hI : Inv l gs) {r} (hr : r ∈ l) :
+theorem MergeInv.exists_group {l gs} (hI : MergeInv l gs) {r} (hr : r ∈ l) :
     ∃ g ∈ gs, g.key = keyOf r := by
   have : keyOf r ∈ gs.map (·.key) := (hI.keys _).2 ⟨r, hr, rfl⟩
   obtain ⟨g, hg, hk⟩ := List.mem_map.1 this
   exact ⟨g, hg, hk⟩
 
-theorem Inv.not_mismatch {l gs} (hI : Inv l gs) : ¬ Mismatch l := by
+theorem MergeInv.not_mismatch {l gs} (hI : MergeInv l gs) : ¬ Mismatch l := by
   rintro ⟨r₁, h₁, r₂, h₂, hk, hor⟩
   obtain ⟨g, hg, hgk⟩ := hI.exists_group h₁
   have hG := hI.grp g hg
@@ -480,8 +480,8 @@ theorem Inv.not_mismatch {l gs} (hI : Inv l gs) : ¬ Mismatch l := by
   · exact h ((hG.shape_lc h₁ hgk.symm).trans (hG.shape_lc h₂ (hk ▸ hgk.symm)).symm)
   · exact h ((hG.shape_cv h₁ hgk.symm).trans (hG.shape_cv h₂ (hk ▸ hgk.symm)).symm)
 
-theorem Inv.step {l gs r gs'} (hI : Inv l gs) (h : insertRec r gs = .ok gs') :
-    Inv (l ++ [r]) gs' := by
+theorem MergeInv.step {l gs r gs'} (hI : MergeInv l gs) (h : insertRec r gs = .ok gs') :
+    MergeInv (l ++ [r]) gs' := by
   rcases insertRec_ok h with ⟨hne, rfl⟩ | ⟨pre, g, post, lc, cv, rfl, hk, hpre, hlc, hcv, rfl⟩
   · have hl : ∀ r' ∈ l, keyOf r' ≠ keyOf r := by
       intro r' hr' heq
@@ -544,7 +544,7 @@ theorem Inv.step {l gs r gs'} (hI : Inv l gs) (h : insertRec r gs = .ok gs') :
         · exact (hI.grp g (by simp)).snoc_eq hk hlc hcv
         · exact (hI.grp x (by simp [hx])).snoc_ne (fun heq => hpost x hx heq.symm)
 
-theorem Inv.step_error {l gs r e} (hI : Inv l gs) (h : insertRec r gs = .error e) :
+theorem MergeInv.step_error {l gs r e} (hI : MergeInv l gs) (h : insertRec r gs = .error e) :
     e = .value ∧ Mismatch (l ++ [r]) := by
   obtain ⟨he, g, hg, hk, hor⟩ := insertRec_error h
   refine ⟨he, ?_⟩
@@ -560,7 +560,7 @@ theorem Inv.step_error {l gs r e} (hI : Inv l gs) (h : insertRec r gs = .error e
     exact (addArr_none_iff _ _).1 h
 
 theorem foldRecs_spec (l : List RawRec) :
-    (∀ gs, foldRecs l [] = .ok gs → Inv l gs) ∧
+    (∀ gs, foldRecs l [] = .ok gs → MergeInv l gs) ∧
     (∀ e, foldRecs l [] = .error e → e = .value ∧ Mismatch l) := by
   induction l using List.reverseRecOn with
   | nil =>
@@ -574,14 +574,14 @@ theorem foldRecs_spec (l : List RawRec) :
     cases hf : foldRecs l [] with
     | error e =>
       obtain ⟨he, hm⟩ := ih.2 e hf
-      refine ⟨fun gs h => by cases h, fun e' h => ?_⟩
+      refine ⟨fun gs h => (by cases h), fun e' h => ?_⟩
       cases h
       exact ⟨he, hm.snoc r⟩
     | ok gs =>
       have hI := ih.1 gs hf
       exact ⟨fun gs' h => hI.step h, fun e h => hI.step_error h⟩
 
-theorem foldRecs_inv {l gs} (h : foldRecs l [] = .ok gs) : Inv l gs := (foldRecs_spec l).1 gs h
+theorem foldRecs_inv {l gs} (h : foldRecs l [] = .ok gs) : MergeInv l gs := (foldRecs_spec l).1 gs h
 
 theorem foldRecs_error {l e} (h : foldRecs l [] = .error e) : e = .value ∧ Mismatch l :=
   (foldRecs_spec l).2 e h
@@ -596,7 +596,7 @@ theorem foldRecs_error_iff (l : List RawRec) : foldRecs l [] = .error .value ↔
 
 /-! ### order insensitivity -/
 
-theorem Inv.mem_transfer {l₁ l₂ ga gb} (hp : l₁.Perm l₂) (ha : Inv l₁ ga) (hb : Inv l₂ gb)
+theorem MergeInv.mem_transfer {l₁ l₂ ga gb} (hp : l₁.Perm l₂) (ha : MergeInv l₁ ga) (hb : MergeInv l₂ gb)
     {g : Group} (hg : g ∈ ga) : g ∈ gb := by
   have hG : IsGroupOf l₂ g := (ha.grp g hg).perm hp
   obtain ⟨r, hr, hk⟩ := hG.ne
